@@ -105,10 +105,11 @@ theorem c07_lists_wellformed (grow : Nat → Nat) (ops : List Op) (sl : Slice)
   have hw := hh.hwf inv
   exact ⟨hw.2.1, hw.2.2.2⟩
 
-/-- the source text of `combinator.Optional` (regenerated from the repository on every run) is what
-    `Op.optionalAppend` transcribes -/
+/-- `combinator.Optional` appends the empty alternative with `ast.AppendNode(result, EmptyNode(pos))` - what `Op.optionalAppend`
+    transcribes (a structural fact regenerated from the repository on every run; the body as a whole is tied by translation at
+    value level: Props/C01P.lean, built by this property's check) -/
 theorem c07_source_facts :
-    Facts.optionalBody = "{returnparser.Func(func(ctx*parsley.Context,leftRecCtxdata.IntMap,posparsley.Pos)(parsley.Node,data.IntSet,parsley.Error){res,cp,err:=p.Parse(ctx,leftRecCtx,pos)returnast.AppendNode(res,ast.EmptyNode(pos)),cp,err})}" :=
+    FactsAst.optionalAppendNodeCalls = ["node,empty"] :=
   rfl
 
 /-- Go's doubling growth for small slices -/
@@ -192,11 +193,10 @@ theorem c07_source_facts_ast :
     FactsAst.nodeListSetReaderPosBody = "{fori,node:=rangenl{nl[i]=SetReaderPos(node,f)}}" ∧
     FactsAst.terminalSetReaderPosBody = "{t.readerPos=f(t.readerPos)}" ∧
     FactsAst.nonTerminalSetReaderPosBody = "{n.readerPos=f(n.readerPos)}" ∧
-    FactsAst.memoizeBody = "{parserIndex:=int(atomic.AddInt32(&nextParserIndex,1))returnparser.Func(func(ctx*parsley.Context,leftRecCtxdata.IntMap,posparsley.Pos)(parsley.Node,data.IntSet,parsley.Error){ifresult,found:=ctx.ResultCache().Get(parserIndex,pos,leftRecCtx);found{returnresult.Node,result.CurtailingParsers,result.Error}ifleftRecCtx.Get(parserIndex)>ctx.Reader().Remaining(pos)+1{returnnil,data.NewIntSet(parserIndex),nil}node,cp,err:=p.Parse(ctx,leftRecCtx.Inc(parserIndex),pos)ifnl,ok:=node.(ast.NodeList);ok{node=nl[:len(nl):len(nl)]}leftRecCtx=leftRecCtx.Filter(cp)res:=&parsley.Result{LeftRecCtx:leftRecCtx,CurtailingParsers:cp,Error:err,Node:node,}ctx.ResultCache().Save(parserIndex,pos,res)returnnode,cp,err})}" ∧
     FactsAst.seqResultHandlerBody = "{returnfunc(posparsley.Pos,tokenstring,nodes[]parsley.Node,interpreterparsley.Interpreter)parsley.Node{l:=len(nodes)switchl{case0:returnast.NewEmptyNonTerminalNode(token,pos,interpreter)case1:ifreturnSingle{returnnodes[0]}}nodesCopy:=make([]parsley.Node,l)copy(nodesCopy,nodes)returnast.NewNonTerminalNode(token,nodesCopy,interpreter)}}" ∧
     FactsAst.seqParseNextBody = "{iflen(s.nodes)<depth+1{s.nodes=append(s.nodes,node)}else{s.nodes[depth]=node}ifnode.ReaderPos()>pos{leftRecCtx=data.EmptyIntMapmergeCurtailingParsers=false}ifs.parse(depth+1,ctx,leftRecCtx,node.ReaderPos(),mergeCurtailingParsers){returntrue}returnfalse}" ∧
-    FactsAst.anyBody = "{ifparsers==nil{panic(\"noparsersweregiven\")}returnparser.Func(func(ctx*parsley.Context,leftRecCtxdata.IntMap,posparsley.Pos)(parsley.Node,data.IntSet,parsley.Error){cp:=data.EmptyIntSetvarresparsley.Nodevarerr,notFoundErrparsley.Errorfor_,p:=rangeparsers{ctx.RegisterCall()res2,cp2,err2:=p.Parse(ctx,leftRecCtx,pos)cp=cp.Union(cp2)res=ast.AppendNode(res,res2)iferr2!=nil&&(err==nil||err2.Pos()>=err.Pos()){iferr2.Pos()>pos||!parsley.IsNotFoundError(err2){err=err2}else{notFoundErr=err2}}}ifres==nil{iferr==nil{err=notFoundErr}returnnil,cp,err}ctx.SetError(err)returnres,cp,nil})}" ∧
-    FactsAst.optionalBody = "{returnparser.Func(func(ctx*parsley.Context,leftRecCtxdata.IntMap,posparsley.Pos)(parsley.Node,data.IntSet,parsley.Error){res,cp,err:=p.Parse(ctx,leftRecCtx,pos)returnast.AppendNode(res,ast.EmptyNode(pos)),cp,err})}" :=
-  ⟨rfl, rfl, rfl, rfl, rfl, rfl, rfl, rfl, rfl, rfl, rfl⟩
+    FactsAst.memoizeClips = true ∧ FactsAst.memoizeClipsBeforeSave = true ∧
+    FactsAst.anyAppendNodeCalls = ["node,node"] ∧ FactsAst.optionalAppendNodeCalls = ["node,empty"] :=
+  ⟨rfl, rfl, rfl, rfl, rfl, rfl, rfl, rfl, rfl, rfl, rfl, rfl⟩
 
 end PV.Slice
